@@ -43,7 +43,7 @@ def all_jobs(harness, grammars, maxlen_by_nterm, extra=None, split_from=3):
     return jobs
 
 
-NEAR_BASES = {"G1": 4, "G2": 2, "G3": 3, "G4": 2, "G5": 3, "G6": 2, "G7": 3, "G8": 2, "G9": 4, "G10": 4, "G11": 2, "G12": 4, "G13": 4, "G14": 3, "G15": 4, "G16": 2, "G17": 2, "G18": 2, "G19": 4, "G20": 3, "G21": 4, "G22": 4, "G23": 3, "G24": 4, "G25": 4, "G26": 1, "G27": 2, "G28": 2, "G29": 4, "G30": 4, "G31": 4, "G32": 4, "G33": 4, "G34": 4}
+NEAR_BASES = {"G1": 4, "G2": 2, "G3": 3, "G4": 2, "G5": 3, "G6": 2, "G7": 3, "G8": 2, "G9": 4, "G10": 4, "G11": 2, "G12": 4, "G13": 4, "G14": 3, "G15": 4, "G16": 2, "G17": 2, "G18": 2, "G19": 4, "G20": 3, "G21": 4, "G22": 4, "G23": 3, "G24": 4, "G25": 4, "G26": 1, "G27": 2, "G28": 2, "G29": 4, "G30": 4, "G31": 4, "G32": 4, "G33": 4, "G34": 4, "G35": 4, "G36": 4, "G37": 4, "G38": 4, "G39": 2}
 
 
 def near_jobs(harness, grammars, edits, extra=None):
@@ -55,6 +55,22 @@ def near_jobs(harness, grammars, edits, extra=None):
             p.update(extra or {})
             jobs.append({"harness": harness, "params": p, "weight": 50 ** edits})
     return jobs
+
+
+def rep_jobs(harness, b, extra=None):
+    """REP(m) input family: m fragments chosen from the grammar's list (harness/ph.h rep_frags) plus a tail."""
+    jobs = []
+    for gid, spec in (b.get("rep") or {}).items():
+        m, nfrag = spec
+        for f0 in range(nfrag):       # one job per first fragment
+            p = {"grammar": GIDX[gid], "rep": m, "nfrag": nfrag, "frag0": f0}
+            p.update(extra or {})
+            jobs.append({"harness": harness, "params": p, "weight": 3 * nfrag ** (m - 1)})
+    return jobs
+
+
+AGAIN_RULE = "; extra_all slices with again=1: the reported parse is the second one of the same grammar object on the same input, after the owner has released the first result"
+REP_RULE = "; input family REP(m): m fragments, each chosen from the first nfrag entries of the grammar's fragment list, followed by one of its tails (repeated phrases: goto cache, context table)"
 
 
 def sg_jobs(prop, b):
@@ -87,10 +103,13 @@ def plan_C01(tier, seed):
     jobs += all_jobs("hC01.c", b["text_grammars"], b["text_len"], {"via_text": 1})
     jobs += all_jobs("hC01.c", b["nonstrict_grammars"], b["text_len"], {"strict": 0})
     jobs += near_jobs("hC01.c", b["near_grammars"], b["near_edits"])
+    jobs += rep_jobs("hC01.c", b)
+    for x in b.get("extra_all", []):
+        jobs += all_jobs("hC01.c", x["grammars"], x["all_len"], x["params"])
     jobs += sg_jobs(1, b)
     wit = [{"harness": "hC01.c", "params": {"grammar": GIDX["G1"], "len": 2, "first": -1, "witness": 1}}]
     return {"jobs": jobs, "witness": wit, "bounds": b,
-            "rule": "one state = one complete path of the harness = (catalogue grammar, token-kind sequence of the stated length, one of 24 configurations lookahead x one_parse x cost x recovery); token attributes are symbolic 64-bit values; the solver enumerates exactly the feasible sequences, every assertion is discharged per path" + SG_RULE,
+            "rule": "one state = one complete path of the harness = (catalogue grammar, token-kind sequence of the stated length, one of 24 configurations lookahead x one_parse x cost x recovery); token attributes are symbolic 64-bit values; the solver enumerates exactly the feasible sequences, every assertion is discharged per path" + REP_RULE + AGAIN_RULE + SG_RULE,
             "assumptions": ["derivability oracle: naive least fixpoint over spans (spec/oracle.h), independent of yaep"]}
 
 
@@ -118,12 +137,16 @@ def simple_plan(prop, harness, rule, assumptions, extra_params=None, sg_prop=Non
         jobs = all_jobs(harness, b["grammars"], b["all_len"], ep)
         if "near_grammars" in b:
             jobs += near_jobs(harness, b["near_grammars"], b["near_edits"], ep)
+        jobs += rep_jobs(harness, b, ep)
+        for x in b.get("extra_all", []):      # further ALL(N) slices under extra harness parameters
+            xp = dict(ep); xp.update(x["params"])
+            jobs += all_jobs(harness, x["grammars"], x["all_len"], xp)
         if sg_prop:
             jobs += sg_jobs(sg_prop, b)
         if harness == "hRec.c":
             jobs += sge_jobs(b, ep)
         w = dict(ep); w.update({"grammar": GIDX[b["grammars"][0]], "len": 3, "first": -1, "witness": 1})
-        return {"jobs": jobs, "witness": [{"harness": harness, "params": w}], "bounds": b, "rule": rule + (SG_RULE if sg_prop else ""), "assumptions": assumptions}
+        return {"jobs": jobs, "witness": [{"harness": harness, "params": w}], "bounds": b, "rule": rule + (REP_RULE if "rep" in b else "") + (AGAIN_RULE if "extra_all" in b else "") + (SG_RULE if sg_prop else ""), "assumptions": assumptions}
     return plan
 
 
@@ -138,21 +161,23 @@ def plan_C10(tier, seed):
     jobs.append({"harness": "hC10.c", "params": {"family": 2}, "weight": 50})
     jobs.append({"harness": "hC10.c", "params": {"family": 3}, "weight": 5})
     jobs.append({"harness": "hC10.c", "params": {"family": 4, "maxdepth": b.get("max_chain", 4)}, "weight": 5})
+    jobs.append({"harness": "hC10.c", "params": {"family": 5, "pool": 5}, "weight": 7200})
     wit = [{"harness": "hC10.c", "params": {"family": 3, "witness": 1}}]
     return {"jobs": jobs, "witness": wit, "bounds": b,
-            "rule": "one state = one grammar definition distinguished by yaep_read_grammar: family 0 = up to max_terms terminals with names from {a,b,c,error,$S,$eof} and codes from {INT_MIN,-1,0,1,2,255,INT_MAX}, chosen lazily when yaep asks for them; family 1 = up to max_rules rules over {S,A,a,b[,B]} with right-hand sides up to max_rhs; family 2 = one rule with abstract node or not, cost symbolic over all int, translation list of up to 3 symbolic non-negative ints; family 3 = one reserved/terminal/undeclared name as left-hand side or in a right-hand side of the first or a later rule; family 4 = unit-rule chains of depth 1..max_chain ending in an empty or a terminal rule, with or without the rule N0 : N0 N0 (self-derivation through a nullable sibling) and with or without terminal alternatives; strict_p symbolic",
+            "rule": "one state = one grammar definition distinguished by yaep_read_grammar: family 0 = up to max_terms terminals with names from {a,b,c,error,$S,$eof} and codes from {INT_MIN,-1,0,1,2,255,INT_MAX}, chosen lazily when yaep asks for them; family 1 = up to max_rules rules over {S,A,a,b[,B]} with right-hand sides up to max_rhs; family 2 = one rule with abstract node or not, cost symbolic over all int, translation list of up to 3 symbolic non-negative ints; family 3 = one reserved/terminal/undeclared name as left-hand side or in a right-hand side of the first or a later rule; family 4 = unit-rule chains of depth 1..max_chain ending in an empty or a terminal rule, with or without the rule N0 : N0 N0 (self-derivation through a nullable sibling) and with or without terminal alternatives; family 5 = three rules over {S,A,a,b,B}, the first two with at most one right-hand-side symbol, the third with two; strict_p symbolic",
             "assumptions": ["well-formedness oracle: direct definitions (nullable/productive fixpoints, transitive closure for self-derivation, reachability)"]}
 
 
 def plan_C11(tier, seed):
     b = BOUNDS["C11"][tier]
     jobs = [{"harness": "hC11.c", "params": {"mode": 0, "grammar": GIDX[g], "maxlen": b["maxlen"]}, "weight": 100} for g in b["grammars"]]
+    jobs += [{"harness": "hC11.c", "params": {"mode": 0, "hist": 1, "grammar": GIDX[g], "maxlen": b["maxlen"]}, "weight": 40} for g in b.get("hist_grammars", [])]
     for n in range(1, b["nbytes"] + 1):
         jobs.append({"harness": "hC11.c", "params": {"mode": 1, "nbytes": n}, "weight": 30 ** n})
     jobs.append({"harness": "hC11.c", "params": {"mode": 2}, "weight": 20})
     wit = [{"harness": "hC11.c", "params": {"mode": 2, "witness": 1}}]
     return {"jobs": jobs, "witness": wit, "bounds": b,
-            "rule": "mode 0: one state = (catalogue grammar rendered as text, layout style x optional semicolons x comment x symbolic white-space byte, one_parse); inside the path the text-defined and the callback-defined twin are compared on every token sequence up to maxlen; mode 1: one state = one class of byte strings of the stated length that the lexer/parser distinguishes (bytes fully symbolic); mode 2: character constant with symbolic character 1..127",
+            "rule": "mode 0: one state = (catalogue grammar rendered as text, layout style x optional semicolons x comment x symbolic white-space byte, one_parse); inside the path the text-defined and the callback-defined twin are compared on every token sequence up to maxlen; with hist=1 (hist_grammars) the layout is fixed except the style and one of five other descriptions (syntax error, bad translation number, repeated code, accepted, conflicting redeclaration) is read first by the same or another object; mode 1: one state = one class of byte strings of the stated length that the lexer/parser distinguishes (bytes fully symbolic); mode 2: character constant with symbolic character 1..127",
             "assumptions": ["denoted grammar of a rendering computed by the harness (implicit codes 256.. in order of appearance)", "characters above 127 in character constants are outside the claim (char signedness)"]}
 
 
@@ -185,10 +210,11 @@ def plan_C15(tier, seed):
 
 def plan_C14(tier, seed):
     b = BOUNDS["C14"][tier]
-    jobs = [{"harness": "hC14.c", "params": {"steps": k, "objects": n}, "weight": (13 * n) ** k} for (k, n) in b["histories"]]
+    jobs = [{"harness": "hC14.c", "params": {"steps": k, "objects": n}, "weight": (15 * n) ** k} for (k, n) in b["histories"]]
+    jobs += [{"harness": "hC14.c", "params": {"steps": k, "objects": n, "predef": 1, "la0": la, "g0": GIDX[g0]}, "weight": (15 * n) ** k} for (k, n, la, g0) in b.get("predefined", [])]
     wit = [{"harness": "hC14.c", "params": {"steps": 2, "objects": 1, "witness": 1}}]
     return {"jobs": jobs, "witness": wit, "bounds": b,
-            "rule": "one state = one history of `steps' API calls over `objects' grammar objects; each call is one of 13 actions (create, free, 6 definitions of which 4 are defective, 3 setting changes, parse of a sentence / a non-sentence) on a symbolic target; histories that call an action on a non-existing object are pruned by assumption",
+            "rule": "one state = one history of `steps' API calls over `objects' grammar objects; each call is one of 15 actions (create, free, 6 definitions of which 4 are defective, 3 setting changes, parse of one of three sentences / a non-sentence) on a symbolic target; `predefined' histories start with objects that already have a good definition under the stated lookahead level; the trees of a parse are released before the next call; histories that call an action on a non-existing object are pruned by assumption",
             "assumptions": ["reference for each call: the same call on a fresh object given only the target's current definition and settings", "built-in VM memory checks (use after free, double free, leaks via live-block count) are part of this check"]}
 
 
@@ -220,6 +246,8 @@ def plan_C19(tier, seed):
                 jobs.append({"harness": src, "defs": D, "lib": lib, "params": {"mode": 0, "steps": b["hash_steps"], "elements": b["hash_elements"], "hmax": b["hmax"], "size": 0, "el0": e0, "op0": o0}, "weight": 3000 if o0 == 0 else 1000})
         for op0 in range(8):
             jobs.append({"harness": src, "defs": D, "lib": lib, "params": {"mode": 1, "steps": b["os_steps"], "op0": op0}, "weight": 800})
+        for op0 in range(5):
+            jobs.append({"harness": src, "defs": D, "lib": lib, "params": {"mode": 1, "opset": 1, "steps": b.get("os_long_steps", 6), "op0": op0}, "weight": 5 ** (b.get("os_long_steps", 6) - 1) * 3})
         for op0 in range(7):
             jobs.append({"harness": src, "defs": D, "lib": lib, "params": {"mode": 2, "steps": b["vlo_steps"], "op0": op0}, "weight": 800})
     # inductive step of the C hash table: one operation from every state that satisfies the representation invariant
@@ -229,7 +257,7 @@ def plan_C19(tier, seed):
                 jobs.append({"harness": "hC19.c", "defs": D, "lib": "containers", "params": {"mode": 3, "size": size, "elements": nel, "hmax": b["step_hmax"], "op0": op0, "el0": el0}, "weight": 2000})
     wit = [{"harness": "hC19.c", "defs": D, "lib": "containers", "params": {"mode": 2, "steps": 2, "witness": 1}}]
     return {"jobs": jobs, "witness": wit, "bounds": b, "defs": D, "cxx": True,
-            "rule": "one state = one history of `steps' container operations from a fresh container with symbolic operation kinds and sizes from {0,1,15,16,17,24} bytes (segment length 16 / initial VLO length 4 so that growth and segment changes occur); hash table: elements with symbolic hash values, initial size 0 so that every history crosses expansions; after every operation the full abstract contents are compared with the model; inductive step (C hash table): one state = one table of the stated size whose slots are empty / deleted / one of the elements (chosen by the solver), constrained only by the representation invariant (each element at most once and reachable on its own probe sequence before the first empty slot, counters consistent, one empty slot), followed by one operation; hash values symbolic in 0..step_hmax",
+            "rule": "one state = one history of `steps' container operations from a fresh container with symbolic operation kinds and sizes from {0,1,15,16,17,24} bytes (segment length 16 / initial VLO length 4 so that growth and segment changes occur); object stack additionally: histories of os_long_steps operations over {append 1 / 15 / 24 bytes, finish, empty}; hash table: elements with symbolic hash values, initial size 0 so that every history crosses expansions; after every operation the full abstract contents are compared with the model; inductive step (C hash table): one state = one table of the stated size whose slots are empty / deleted / one of the elements (chosen by the solver), constrained only by the representation invariant (each element at most once and reachable on its own probe sequence before the first empty slot, counters consistent, one empty slot), followed by one operation; hash values symbolic in 0..step_hmax",
             "assumptions": ["realloc always moves the block (VM and native wrapper)", "units verified: hashtab.c, objstack.c + objstack.h macros, vlobject.c + vlobject.h macros, allocate.c; hashtab.cpp, objstack.cpp, vlobject.cpp and the inline members of classes hash_table, os, vlo (clang++-14 -fno-exceptions, operator new never fails)"]}
 
 
@@ -288,7 +316,7 @@ TREE_ORACLE = "translation oracle: exhaustive enumeration of all derivations ove
 
 PROPS = {
     "C01": {"plan": plan_C01, "home_faults": False},
-    "C02": {"plan": simple_plan("C02", "hC02.c", "one state = (catalogue grammar, sentence of the stated length chosen by the solver, lookahead level); token attributes symbolic 64-bit, so 'TERM carries the attribute of its position' is a solver verdict", [TREE_ORACLE], sg_prop=2), "home_faults": False},
+    "C02": {"plan": simple_plan("C02", "hC02.c", "one state = (catalogue grammar, sentence of the stated length chosen by the solver, lookahead level); token attributes symbolic 64-bit, so 'TERM carries the attribute of its position' is a solver verdict; extra_all again=1: the object parses the input a second time after the first tree has been released, the second tree is checked", [TREE_ORACLE], sg_prop=2), "home_faults": False},
     "C03": {"plan": simple_plan("C03", "hC03.c", "one state = (catalogue grammar, sentence, lookahead level) with all parses requested; set equality denoted(DAG) = translations checked in both directions per path", [TREE_ORACLE, "inputs whose denoted set exceeds 700 trees per node are counted and skipped"], sg_prop=3), "home_faults": False},
     "C04": {"plan": simple_plan("C04", "hC04.c", "one state = (grammar, sentence, lookahead x one_parse x parse_free given/NULL) x one ordering class of the symbolic rule costs that prune_to_minimal distinguishes; each assertion is decided by Z3 for all costs in the class", [TREE_ORACLE, "abstract-node costs symbolic in 0..maxcost, names unique per rule"]), "home_faults": False},
     "C06": {"plan": simple_plan("C06", "hRec.c", "one state = (grammar, non-sentence of the stated length, lookahead x recovery on/off x one_parse, recovery_match 1..maxmatch); attributes symbolic", ["viable-prefix oracle (spec/oracle.h) with `error' as an ordinary terminal"]), "home_faults": False, "label_prefix": "C06:"},
